@@ -231,7 +231,9 @@ def dea_first_iteration(repo):
         if isinstance(value, Unk):
             for c in value.comparisons():
                 tests.append(('%r %s %r' % (c[2], c[1], c[3]))[:160])
+                cmps.append(c)
         return guards_off(ast.unparse(node), True)
+    cmps = []
     I, models = make(repo, oracle)
     D = I.get_global('extrapolation', 'Dea')
     obj = D(limexp=3)
@@ -239,13 +241,39 @@ def dea_first_iteration(repo):
     out = None
     for k in range(3):
         out = obj(e[k])
-    return {'value': out[0], 'abserr': out[1], 'tests': tests}
+    return {'value': out[0], 'abserr': out[1], 'tests': tests, 'cmps': cmps}
+
+
+def provably_nonneg(v):
+    """A sum of products of abs(..) / max(..positive..) atoms and positive constants with positive coefficients."""
+    from ..algebra import Rat
+    if isinstance(v, Rat):
+        return provably_nonneg(v.n) and provably_nonneg(v.d)
+    c = ndarr.concrete_real(v)
+    if c is not None:
+        return c >= 0
+    if not isinstance(v, Poly):
+        return False
+    for mono, coef in v.t.items():
+        if not coef.is_real() or coef.sign_real() < 0:
+            return False
+        for atom, e in mono:
+            if not (atom.startswith('abs(') or atom in ndarr.POSITIVE_ATOMS or e.denominator == 1 and e.numerator % 2 == 0):
+                return False
+    return True
 
 
 def dea_vs_dea3(ctx, ex):
     rep = ctx.rep
     from .c13 import make as make13, all_b
     info = dea_first_iteration(ctx.repo)
+    # the irregular-behaviour test must compare a magnitude: `x <= 1e-4` for an x that can be negative fires for every
+    # negative x (descending sequences) and cuts the table although nothing is irregular
+    signed = [t for t in info['cmps'] if ndarr.concrete_real(t[3]) == Fr(1, 10000) and t[1] in ('<=', '<') and not provably_nonneg(t[2])]
+    rep.check(not signed and any(ndarr.concrete_real(t[3]) == Fr(1, 10000) for t in info['cmps']), 'R-DEA-DEA3', 'extrapolation.Dea._dea',
+              where_cls(ex, 'Dea', '_dea'), {'compared_with_1e-4': [repr(t[2])[:120] for t in info['cmps'] if ndarr.concrete_real(t[3]) == Fr(1, 10000)][:3],
+                                             'can_be_negative': [repr(t[2])[:120] for t in signed][:2]},
+              'the irregular-behaviour test bounds |sss * e_1| (a magnitude)', 'three terms: irregular-behaviour guard', key='dea-irregular')
     I, models = make13(ctx.repo)
     dea3 = I.get_global('extrapolation', 'dea3')
     e = [Poly.sym('e%d' % k) for k in range(3)]
